@@ -347,6 +347,18 @@ Theorem c04_compile_transparent_source_partial :
 Proof. exact gen_compile_input_transparent. Qed.
 Print Assumptions c04_compile_transparent_source_partial.
 
+(* with the healthy seek window of C08 in the window's place (builder compile's mr_window over the projection at the thread's
+   cut — the producer c08_window_path_agrees is about; its admissibility argument is reused) no hypothesis about the window
+   is left: whatever the mr sidecar and the full sidecar's tail hold outside K2m / K1, tail loop -> window -> replay
+   give the replay's answer *)
+Theorem c04_compile_transparent_healthy_window :
+  forall (r : tail_count) (P : params) (texts : N -> N) (l : Compile.log) (a : N) (ks : list nat) (mr full : cfile),
+  tail_count_sound r = true -> incr l -> wf_refs l = true ->
+  MrFaithful l mr full -> HeadFaithful l full ->
+  compile_fast r P texts ks mr full (healthy_window (p_limit P) l a) l a = compile P texts l a.
+Proof. exact compile_input_transparent_healthy_window. Qed.
+Print Assumptions c04_compile_transparent_healthy_window.
+
 (* with every cache file gone the loader IS the replay (the reference side of the oracle) *)
 Theorem c04_compile_without_caches :
   forall (r : tail_count) (P : params) (texts : N -> N) (ks : list nat) (l : Compile.log) (a : N),
